@@ -15,6 +15,10 @@ of the chosen phase.  Then EVERY crash index k = 1..N is enumerated: fresh objec
   (e) behaviourally: the object evaluates to the same values as before, and the same functional call repeated on the same
       objects without fault runs and returns bit-identical results (and again leaves (b)-(d) intact).
 
+Round 3: objects holding tensors of other dtypes next to float64 (kind em_mixed), arbitrary name -> tensor maps for EditableModules
+(em_map), user LinearOperators (map) and composed operators (comp); a fault-free call that xitorch itself fails must leave the state
+intact as well (kind `...:failed_call`) before it is discarded.
+
 Task `nesting`: a Hypothesis RuleBasedStateMachine over useobjparams / uselinopparams / enable_debug / disable_debug
 (push with identical, fresh, aliased tensors; pop; evaluate; raise inside and unwind d levels), executed with real nested
 `with` blocks; the model is a Python stack.
@@ -39,12 +43,22 @@ EXHAUSTIVE = True
 NMAX = 600
 RULE = ("faults: scenario = functional {rootfinder, equilibrium, minimize, solve_ivp, quad, mcquad, jac, hess, solve(jac), solve, symeig} x method x "
         "function kind {pure, nn.Module flat/nested/tied, EditableModule attrs/containers/held nn.Module (complete or partial+reordered listing), "
-        "one/two siblings} or user LinearOperator kind {attributes, aliased attributes, containers, held nn.Module} x 4 product-method subsets x "
+        "one/two siblings, em_mixed = EditableModule holding 1..3 tensors of other dtypes (bfloat16, float16, float32, float64, complex64/128, "
+        "int32/64, uint8, bool, float8) declared or undeclared, as attribute / list item / dict item / Parameter of a held nn.Module, at drawn "
+        "places of the attribute order and of the name list, em_map = EditableModule whose 1..7 declared names (attributes, list and dict "
+        "items) map onto 1..4 distinct tensors by an arbitrary drawn surjection, both also through a caller-held sibling wrapper} or user LinearOperator kind {attributes, aliased attributes, "
+        "containers, held nn.Module, map = 1..7 names onto 1..4 distinct tensors (arbitrary surjection), comp = composite (matmul / + / "
+        "scalar * / .H with drawn association) of 1..7 user leaf operators sharing 1..4 distinct tensors (debug mode off for comp)} x 4 "
+        "product-method subsets x "
         "phase {forward, backward, double backward} x prior debug flag x {no context, enable_debug, disable_debug}; N = evaluations of the user "
         "function / operator products measured by a dry run; EVERY crash index k=1..N is executed (scenarios with N > %d are discarded and "
         "counted, none occurs at the generated sizes), so each counted scenario is enumerated exhaustively; after every k: exception, snapshot, "
-        "debug flag, restore stack, evaluation probe; the repeated call after every k if N <= 16, else after the indices of followup_indices(). nesting: state machine of <= 14 "
-        "(thorough 24) push/pop/evaluate/raise-and-unwind steps over useobjparams, uselinopparams, enable_debug, disable_debug. "
+        "debug flag, restore stack, evaluation probe; the repeated call after every k if N <= 16, else after the indices of followup_indices(). "
+        "A fault-free call that xitorch itself fails is discarded and counted, after the same state checks (kind ...:failed_call). "
+        "nesting: state machine of <= 14 "
+        "(thorough 24) push/pop/evaluate/raise-and-unwind steps over useobjparams, uselinopparams, enable_debug, disable_debug, followed by one "
+        "identical substitution of both kinds; targets: EditableModule (plain, aliased, containers, held nn.Module, sibling, em_map = arbitrary "
+        "surjection of 1..7 names onto 1..4 tensors), nn.Module (plain, tied) and a user LinearOperator (plain, aliased, map, comp as above). "
         "Non-trivial = scenario with N >= 1 whose objects hold at least one tensor that xitorch substitutes (object kind != pure), resp. history "
         "with >= 2 nested substitutions; distinct by canonical scenario / history." % NMAX)
 ASSUMPTIONS = [
@@ -56,6 +70,15 @@ ASSUMPTIONS = [
     "in debug mode LinearOperator.check() reports an exception of the operator's products as a RuntimeError carrying the original traceback "
     "(documented): accepted as propagation of the fault; everywhere else the caller must receive the InjectedFault object's own type",
     "useobjparams / uselinopparams are given plain tensors (what the functionals pass) or the current objects themselves",
+    "an object may hold tensors of any dtype; a name declared in getparamnames refers to a tensor of any dtype outside debug mode, while in "
+    "debug mode assertparams documents that it refuses declared tensors other than float16/32/64 (GetSetParamsError): such scenarios are "
+    "kept at a quarter of their natural rate, checked for intact state after the refusal, and counted as discards; undeclared tensors of "
+    "other dtypes never require gradients (constants of the method)",
+    "declared names may refer to the same tensor in any pattern (the functionals substitute each distinct tensor once); leaf operators of a "
+    "composite are diagonal (commuting, symmetric), so every product node may truthfully be flagged Hermitian; a leaf used through .H is "
+    "declared with is_hermitian=False (the flag only enables short-cuts)",
+    "nesting: the operator product is compared with the same sum of products in plain tensor algebra, tolerance 1e-12 x (1 + the expression "
+    "evaluated at absolute values), i.e. ~4500 eps for <= 20 roundings",
 ]
 LEVEL_TEXT = ("Fault enumeration: for every generated scenario the crash index ranges over ALL evaluations of the user's code measured by a dry "
               "run (exhaustive per scenario), with a structural + behavioural snapshot oracle after each run; nesting of the substitution "
@@ -115,10 +138,34 @@ def _scenario_labels(case):
     out = ["functional=" + f, "method=%s/%s" % (f, case["method"]), "phase=%d" % case["phase"],
            "debug=%s/%s" % (case.get("dbg_prior"), case.get("dbg_ctx"))]
     if "spec" in case:
-        out.append("kind=" + case["spec"]["kind"])
+        out.append("kind=" + case["spec"]["kind"] + ("/sibling" if case["spec"].get("sib") else ""))
     if "lkind" in case:
         out.append("linop=%s/%s" % (case["lkind"], case.get("impl")))
+    for ex in case.get("spec", {}).get("extras", []):
+        lab = "other_dtype=%s/%s/%s" % (ex["dt"], "declared" if ex.get("decl") else "undeclared", ex["where"])
+        if lab not in out:
+            out.append(lab)
+    amap = case.get("amap") or case.get("spec", {}).get("amap")
+    if amap is not None:
+        out.append("names->tensors=%d->%d" % (len(amap), max(amap) + 1))
+        out.append("alias_pattern=" + alias_class(amap))
     return out
+
+
+def alias_class(amap):
+    """none: all names distinct; early: every repeated tensor is first seen before any repetition; late: some tensor is first seen
+    after a repetition of another one and is itself repeated later (e.g. [p, p, q, r, q])"""
+    if len(set(amap)) == len(amap):
+        return "none"
+    seen, repeated = set(), False
+    for k, u in enumerate(amap):
+        if u in seen:
+            repeated = True
+        else:
+            if repeated and u in amap[k + 1:]:
+                return "late"
+            seen.add(u)
+    return "early"
 
 
 def run_faults(case):
@@ -184,7 +231,15 @@ def _run_faults(case, labels, prior):
     probe0 = pb.probe()
     try:
         res0 = _execute(pb, case)
-    except Exception as e:  # noqa: BLE001 - a fault-free call failing is another property's business (C01..C09, C13, C16, C17)
+    except Exception as e:  # noqa: BLE001 - a fault-free call failing is another property's business (C01..C09, C13, C16, C17) ...
+        # ... but not what it leaves behind: a call that xitorch rejects / fails (e.g. the debug-mode check refusing a declared
+        # tensor of a non-floating dtype) must leave the caller's objects and the debug flag as they were, too
+        chk = _state_checks(pb, before, prior, "failed_call")
+        if chk is not None:
+            return violation(chk[0], "%s [the fault-free call raised %s: %s]" % (chk[1], type(e).__name__, str(e)[:200]), labels)
+        if type(e).__name__ == "GetSetParamsError" and "non-floating point tensor" in str(e) and any(
+                ex.get("decl") and ex["dt"] not in R.DECLARABLE_DTYPES for ex in case.get("spec", {}).get("extras", [])):
+            return discard("debug_check_refuses_declared_dtype(documented)", labels)
         return discard("dry_run_raised:%s" % type(e).__name__, labels)
     N = pb.counter.n
     marks = list(pb.marks)
@@ -229,7 +284,27 @@ def _run_faults(case, labels, prior):
 
 # ------------------------------------------------------------------------------------------ scenario strategy
 
-FAULT_KINDS = gen.OBJ_KINDS * 2 + R.EXTRA_KINDS * 3 + ["pure"]
+FAULT_KINDS = gen.OBJ_KINDS * 2 + R.EXTRA_KINDS * 3 + ["pure"] + ["em_mixed"] * 5 + ["em_map"] * 3
+FAULT_LINOP_KINDS = R.LINOP_KINDS + ["map", "comp", "comp"]
+# other-dtype tensors an object may hold; every class (low-precision float, float8, complex, integer, bool) next to float64
+EXTRA_DTYPES = ["bfloat16"] * 3 + ["float16"] * 3 + ["float32"] * 2 + ["float64", "complex128", "complex64", "int64", "int32", "uint8", "bool",
+                                                                        "float8_e5m2", "float8_e4m3fn"]
+
+
+@st.composite
+def amap_st(draw, min_names=1, max_names=7, max_tensors=4):
+    """name -> tensor map: an arbitrary surjection of 1..7 names onto 1..4 distinct tensors, numbered by first occurrence"""
+    K = draw(st.sampled_from([k for k in (1, 2, 3, 4, 5, 5, 6, 6, 7, 7) if min_names <= k <= max_names]))
+    raw = draw(st.lists(st.integers(0, max_tensors - 1), min_size=K, max_size=K))
+    return R.canon_map(raw)
+
+
+@st.composite
+def tree_st(draw, K):
+    return {"cuts": draw(st.lists(st.integers(0, 1), min_size=K - 1, max_size=K - 1)),
+            "adj": draw(st.lists(st.sampled_from([0, 0, 0, 1]), min_size=K, max_size=K)),
+            "scl": draw(st.lists(st.sampled_from([0, 0, 1, 2]), min_size=K, max_size=K)),
+            "assoc": draw(st.integers(0, 255)), "dense": draw(st.booleans())}
 
 
 @st.composite
@@ -245,6 +320,36 @@ def scenario_st(draw, tier="quick"):
         spec = draw(gen.funspec_st(2, 2, kinds=FAULT_KINDS, allow_unused=(functional != "mcquad")))
         if spec["kind"] == "em_nn_part":
             spec["reverse"] = draw(st.booleans())
+        if spec["kind"] in R.EXTRA_KINDS_R3:
+            spec["sib"] = draw(st.sampled_from([False, False, False, True]))    # called through a caller-held make_sibling wrapper
+        if spec["kind"] == "em_mixed":
+            # 1..3 tensors of other dtypes: declared in getparamnames (at a drawn place of the list) or not, held as attribute / list
+            # item / dict item / Parameter of a held nn.Module, inserted at a drawn place of the attribute order
+            spec["extras"] = [{"dt": draw(st.sampled_from(EXTRA_DTYPES)), "decl": draw(st.sampled_from([False, False, True])),
+                               "where": draw(st.sampled_from(["attr", "attr", "attr", "list", "dict", "mod"])),
+                               "pos": draw(st.integers(0, 5)), "declpos": draw(st.integers(0, 5)), "req": draw(st.booleans())}
+                              for _ in range(draw(st.integers(1, 3)))]
+            for ex in spec["extras"]:
+                # a parameter of a method is a tensor one can compute with and differentiate through: float8 tensors (no arithmetic)
+                # are held undeclared only, complex ones are declared only where no backward pass of the real-valued problem follows
+                if ex["dt"].startswith("float8") or (ex["dt"].startswith("complex") and case["phase"] > 0):
+                    ex["decl"] = False
+            if case["dbg_ctx"] == "enable" or (case["dbg_prior"] and case["dbg_ctx"] != "disable"):
+                # the debug-mode check documents that it refuses a declared tensor of a dtype other than float16/32/64
+                # (GetSetParamsError): only a quarter of such scenarios keep the declaration (the refusal must leave the object intact)
+                for ex in spec["extras"]:
+                    if ex["decl"] and ex["dt"] not in R.DECLARABLE_DTYPES and not draw(st.sampled_from([True, False, False, False])):
+                        ex["decl"] = False
+        if spec["kind"] == "em_map":
+            spec["amap"] = draw(amap_st())
+            spec["nwhere"] = [draw(st.sampled_from([0, 0, 0, 1, 2])) for _ in spec["amap"]]
+            nheld = max(spec["amap"]) + 1
+            for j in range(len(spec["explicit"])):      # no more object-held tensors of the function than distinct tensors
+                if not spec["explicit"][j]:
+                    if nheld == 0:
+                        spec["explicit"][j] = True
+                    else:
+                        nheld -= 1
         case["spec"] = spec
         case["m"] = draw(st.integers(1, 3))
         r0 = draw(st.booleans())
@@ -260,8 +365,16 @@ def scenario_st(draw, tier="quick"):
             case["role"] = draw(st.sampled_from(["f", "p"]))
             case["ns"] = draw(st.integers(2, 8 if big else 4))
     else:
-        case["lkind"] = draw(st.sampled_from(R.LINOP_KINDS))
+        case["lkind"] = draw(st.sampled_from(FAULT_LINOP_KINDS))
         case["impl"] = draw(st.sampled_from(R.LINOP_IMPLS))
+        if case["lkind"] in R.LINOP_KINDS_R3:
+            case["amap"] = draw(amap_st())
+            if case["lkind"] == "comp":
+                case["tree"] = draw(tree_st(len(case["amap"])))
+                # the debug-mode operator check makes ~200 products per leaf: N would exceed the enumeration bound; aliasing
+                # under debug mode is covered by the one-operator kinds (alias, map)
+                case["dbg_prior"] = False
+                case["dbg_ctx"] = None if case["dbg_ctx"] == "enable" else case["dbg_ctx"]
         case["n"] = draw(st.integers(2, 4 if big else 3))
         r0 = draw(st.booleans())
         case["req"] = [r0, (not r0) or draw(st.booleans())]
@@ -280,7 +393,11 @@ def scenario_st(draw, tier="quick"):
 
 # =============================================================================================== nesting (state machine)
 
-NEST_KINDS = ["em", "em_alias", "nn", "nn_tied", "em_nn", "sib_em"]
+NEST_KINDS = ["em", "em_alias", "nn", "nn_tied", "em_nn", "sib_em", "em_map", "em_map"]
+NEST_LINOPS = ["plain", "alias", "map", "comp"]
+
+
+NEST_EPILOGUE = [["push_lin", "identical", 0], ["push_obj", "identical", 0], ["eval"], ["pop"], ["pop"]]
 
 
 class _Unwind(InjectedFault):
@@ -289,11 +406,12 @@ class _Unwind(InjectedFault):
         self.levels = levels
 
 
-def _build_nest_target(kind, g):
+def _build_nest_target(kind, g, amap=None):
     """returns (pf, slots, evaluate, roots): slots = ordered list of (name, getter) - one per *name* the pure function
     substitutes (tied/aliased names share an object); evaluate(x) = sum_j w_j(x) * tensor_j over the names in order."""
     import xitorch
     from xitorch._core.pure_function import get_pure_function
+    from xitorch._utils.attr import get_attr
 
     def T(shape=(2,)):
         return torch.randn(shape, generator=g, dtype=R.DT)
@@ -301,6 +419,28 @@ def _build_nest_target(kind, g):
     def weights(x, j):
         return torch.cos(x * (j + 1.0))
 
+    if kind == "em_map":
+        # K declared names (attributes, list items, dict items) over U distinct tensors: amap is an arbitrary surjection
+        K = len(amap)
+        Ts = [T().requires_grad_(u % 2 == 0) for u in range(max(amap) + 1)]
+        names = [("a%d" % k) if k % 4 in (0, 2) else ("lst[%d]" % (k // 4)) if k % 4 == 1 else ("dct['k%d']" % k) for k in range(K)]
+
+        class EMM(xitorch.EditableModule):
+            def __init__(self):
+                self.lst = [Ts[amap[k]] for k in range(K) if k % 4 == 1]
+                for k in range(K):
+                    if k % 4 in (0, 2):
+                        setattr(self, "a%d" % k, Ts[amap[k]])
+                self.dct = {"k%d" % k: Ts[amap[k]] for k in range(K) if k % 4 == 3}
+
+            def f(self, x):
+                return sum((weights(x, j) * get_attr(self, nm)).sum() for j, nm in enumerate(names))
+
+            def getparamnames(self, methodname, prefix=""):
+                return [prefix + nm for nm in names]
+        obj = EMM()
+        slots = [(nm, (lambda nm=nm: get_attr(obj, nm))) for nm in names]
+        return get_pure_function(obj.f), slots, obj.f, [("obj", obj)]
     if kind in ("em", "em_alias", "sib_em"):
         class EM(xitorch.EditableModule):
             def __init__(self):
@@ -375,8 +515,58 @@ def _build_nest_target(kind, g):
     raise ValueError(kind)
 
 
-def _build_nest_linop(alias, g):
+def _build_nest_linop(alias, g, lkind=None, lmap=None, ltree=None):
+    """returns (operator, slots, expect): slots = (name, getter) per parameter name of the operator in the order of its name list,
+    expect(tensors, x) = the product the operator must give when the names hold `tensors` (plain tensor algebra)"""
     import xitorch
+    if lkind in ("map", "comp"):
+        K = len(lmap)
+        Ts = [torch.randn((2,), generator=g, dtype=R.DT).requires_grad_(u % 2 == 1) for u in range(max(lmap) + 1)]
+    if lkind == "map":
+        # one operator, K names q0..q{K-1} over U distinct tensors
+        class MapOp(xitorch.LinearOperator):
+            def __init__(self):
+                super().__init__(shape=(2, 2), is_hermitian=True, dtype=R.DT)
+                for k in range(K):
+                    setattr(self, "q%d" % k, Ts[lmap[k]])
+
+            def _mv(self, x):
+                return sum((k + 1.0) * getattr(self, "q%d" % k) for k in range(K)) * x
+
+            def _getparamnames(self, prefix=""):
+                return [prefix + "q%d" % k for k in range(K)]
+        mop = MapOp()
+        return (mop, [("q%d" % k, (lambda k=k: getattr(mop, "q%d" % k))) for k in range(K)],
+                lambda ts, x: sum((k + 1.0) * t for k, t in enumerate(ts)) * x)
+    if lkind == "comp":
+        # a composite (matmul / + / scalar * / .H) of K diagonal leaf operators sharing U distinct tensors
+        class Leaf(xitorch.LinearOperator):
+            def __init__(self, d, herm):
+                super().__init__(shape=(2, 2), is_hermitian=herm, dtype=R.DT)
+                self.d = d
+
+            def _mv(self, x):
+                return self.d * x
+
+            def _getparamnames(self, prefix=""):
+                return [prefix + "d"]
+        leaves = {}
+
+        def mkleaf(k, use_adj):
+            leaves[k] = Leaf(Ts[lmap[k]], not use_adj)
+            return leaves[k].H if use_adj else leaves[k]
+        cop = R.compose(K, ltree, mkleaf, False)
+        terms, _, _, factors = R.comp_structure(K, ltree)
+
+        def expect(ts, x):
+            out = 0.0
+            for term, f in zip(terms, factors):
+                prod = x
+                for k in term:
+                    prod = ts[k] * prod
+                out = out + f * prod
+            return out
+        return cop, [("leaf%d.d" % k, (lambda k=k: leaves[k].d)) for k in range(K)], expect
 
     class Op(xitorch.LinearOperator):
         def __init__(self):
@@ -392,7 +582,7 @@ def _build_nest_linop(alias, g):
             return [prefix + "P", prefix + "d", prefix + "d2"]
     op = Op()
     slots = [("P", lambda: op.P), ("d", lambda: op.d), ("d2", lambda: op.d2)]
-    return op, slots
+    return op, slots, (lambda ts, x: torch.matmul(ts[0], x.unsqueeze(-1)).squeeze(-1) + (ts[1] + 2.0 * ts[2]) * x)
 
 
 def _unique_pattern(objs):
@@ -415,6 +605,11 @@ def run_nesting(case):
     g = gen.seeded(case["seed"])
     kind = case["kind"]
     labels = ["nest_kind=" + kind, "linop_alias=%s" % case["lalias"]]
+    if case.get("lkind"):
+        labels.append("nest_linop=" + case["lkind"])
+    for key in ("amap", "lmap"):
+        if case.get(key) is not None:
+            labels.append("%s:alias_pattern=%s" % (key, alias_class(case[key])))
     xitorch.set_debug_mode(False)
     try:
         return _run_nesting(case, g, kind, labels)
@@ -424,8 +619,8 @@ def run_nesting(case):
 
 def _run_nesting(case, g, kind, labels):
     import xitorch
-    pf, slots, evaluate, roots = _build_nest_target(kind, g)
-    op, lslots = _build_nest_linop(case["lalias"], g)
+    pf, slots, evaluate, roots = _build_nest_target(kind, g, case.get("amap"))
+    op, lslots, lexpect = _build_nest_linop(case["lalias"], g, case.get("lkind"), case.get("lmap"), case.get("ltree"))
     roots = roots + [("op", op)]
     before = R.snapshot(roots)
     orig = [get() for _, get in slots]
@@ -469,10 +664,12 @@ def _run_nesting(case, g, kind, labels):
         if not abs(float(got) - float(exp)) <= 1e-12 * (1.0 + abs(float(exp))):
             raise Bad("nesting_eval", "object evaluates to %.17g, the tensors in force give %.17g" % (float(got), float(exp)))
         ltop = model["lin"][-1]
-        P, d, d2 = (ltop[u] for u in lpattern)
-        lexp = torch.matmul(P, x.unsqueeze(-1)).squeeze(-1) + (d + 2.0 * d2) * x
+        lexp = lexpect([ltop[u] for u in lpattern], x)
         lgot = op.mv(x)
-        if not float((lgot - lexp).abs().max()) <= 1e-12 * (1.0 + float(lexp.abs().max())):
+        # the operator is a sum of products of <= 7 of its tensors applied to x: evaluated at the absolute values the same expression
+        # bounds the magnitude of every partial sum; 1e-12 ~ 4500 eps covers the <= 20 roundings of either evaluation order
+        lmag = lexpect([t.detach().abs() for t in (ltop[u] for u in lpattern)], x.abs())
+        if not float((lgot - lexp).abs().max()) <= 1e-12 * (1.0 + float(lmag.max())):
             raise Bad("nesting_eval_linop", "operator product differs from the tensors in force by %.3e" % float((lgot - lexp).abs().max()))
 
     def new_list(cur, base, mode, choice):
@@ -493,7 +690,9 @@ def _run_nesting(case, g, kind, labels):
             return [c if (choice >> i) & 1 else f for i, (c, f) in enumerate(zip(cur, fresh))]
         return fresh
 
-    ops = case["ops"]
+    # every history ends with one more identical substitution of both kinds, evaluated inside and unwound (so that each
+    # history passes through useobjparams and uselinopparams at least once, whatever rules the state machine selected)
+    ops = list(case["ops"]) + NEST_EPILOGUE
 
     def interp(i, depth):
         while i < len(ops):
@@ -529,7 +728,8 @@ def _run_nesting(case, g, kind, labels):
             else:
                 raise ValueError(name)
             stats["pushes"] += 1
-            stats["maxdepth"] = max(stats["maxdepth"], depth + 1)
+            if i < len(case["ops"]):         # the non-triviality rule counts the drawn part of the history only
+                stats["maxdepth"] = max(stats["maxdepth"], depth + 1)
             unwound = None
             try:
                 with cm:
@@ -575,9 +775,17 @@ def machine(holder):
             super().__init__()
             self.case = None
 
-        @initialize(kind=st.sampled_from(NEST_KINDS), lalias=st.booleans(), seed=st.integers(0, 2 ** 31 - 1))
-        def init(self, kind, lalias, seed):
-            self.case = {"kind": kind, "lalias": lalias, "seed": seed, "ops": []}
+        @initialize(kind=st.sampled_from(NEST_KINDS), lkind=st.sampled_from(NEST_LINOPS), seed=st.integers(0, 2 ** 31 - 1), data=st.data())
+        def init(self, kind, lkind, seed, data):
+            case = {"kind": kind, "lalias": lkind == "alias", "seed": seed, "ops": []}
+            if kind == "em_map":
+                case["amap"] = data.draw(amap_st())
+            if lkind in ("map", "comp"):
+                case["lkind"] = lkind
+                case["lmap"] = data.draw(amap_st())
+                if lkind == "comp":
+                    case["ltree"] = data.draw(tree_st(len(case["lmap"])))
+            self.case = case        # only a completely drawn case is submitted (a draw may end the example early)
 
         @rule(mode=modes, choice=st.integers(0, 63))
         def push_obj(self, mode, choice):
@@ -725,8 +933,11 @@ def reassign_st(draw, tier="quick"):
 
 def tasks(tier):
     return [
-        Task("faults", strategy=scenario_st(tier), run=run_faults, examples={"quick": 520, "thorough": 10000}),
-        Task("nesting", machine=machine, run=run_nesting, examples={"quick": 2000, "thorough": 16000},
+        # round 3: the new kinds (8 of 29 function kinds, 3 of 7 operator kinds, 2 of 8 nesting targets) come on top of the former
+        # numbers of examples of the other kinds (520 / 2000)
+        Task("nesting", machine=machine, run=run_nesting, examples={"quick": 2600, "thorough": 16000},
              steps={"quick": 14, "thorough": 24}),
         Task("reassign", strategy=reassign_st(tier), run=run_reassign, examples={"quick": 120, "thorough": 1000}),
+        # the expensive task last: under a wall budget cut short (loaded machine) the cheap tasks have run
+        Task("faults", strategy=scenario_st(tier), run=run_faults, examples={"quick": 760, "thorough": 10000}),
     ]
